@@ -1588,7 +1588,11 @@ fn parse_mapping(mapping: &Mapping) -> crate::Result<Expression> {
                 }
                 if group.is_empty() {
                     return Err(crate::error::parse_invalid_ident("failed to parse mapping"));
-                } else if !multiple && group.len() == 1 {
+                } else if !multiple
+                    && group.len() == 1
+                    && !matches!(e, Expression::Match(Match::Of(_), _))
+                {
+                    // NOTE: all(k) over a single member is that member, of(k, n) still has to count
                     group.into_iter().next().expect("could not get expression")
                 } else if let Expression::Match(m, _) = e {
                     if group.len() == 1 {
